@@ -938,6 +938,7 @@ pub fn gen(r: &mut Rng, thorough: bool) -> Vec<(String, String)> {
     for it in 0..90 * k {
         let lat = it % 2 == 0;
         for kind in 0..9 { v.push(gen_seq3(r, lat, kind, 20)); }
+        if it % 2 == 0 { v.push(gen_seq3(r, it % 4 == 0, 10, 20)); }      // 3-D capsule/capsule: closed form, modelled
     }
     for it in 0..250 * k {
         let lat = it % 2 == 0;
